@@ -24,6 +24,18 @@ import (
 //vp:merge (time.Time).After
 //vp:merge (time.Time).Before
 //vp:merge (time.Time).Equal
+//vp:merge github.com/google/go-tdx-guest/verify.validateCertificate
+//vp:merge github.com/google/go-tdx-guest/verify.validateX509Cert
+//vp:merge github.com/google/go-tdx-guest/verify.validateCRL
+//vp:merge github.com/google/go-tdx-guest/verify.checkCollateralExpiration
+//vp:merge github.com/google/go-tdx-guest/verify.checkCertificateExpiration
+//vp:merge github.com/google/go-tdx-guest/verify.verifyResponse
+//vp:merge github.com/google/go-tdx-guest/verify.verifyTdQuoteBody
+//vp:merge github.com/google/go-tdx-guest/verify.verifyQeReport
+//vp:merge github.com/google/go-tdx-guest/verify.verifyHash256
+//vp:merge github.com/google/go-tdx-guest/verify.applyMask
+//vp:merge github.com/google/go-tdx-guest/verify.isCPUSvnHigherOrEqual
+//vp:merge github.com/google/go-tdx-guest/verify.isTdxTcbSvnHigherOrEqual
 
 var (
 	errStub   = errors.New("stub: operation failed")
